@@ -8,3 +8,5 @@ import OlVerif.Props.C06
 #print axioms OlVerif.C06.every_free_name_is_resolved
 #print axioms OlVerif.C06.first_iterable_outside
 #print axioms OlVerif.C06.comprehension_variable_shadows
+#print axioms OlVerif.C06.walrus_in_lambda_is_local
+#print axioms OlVerif.C06.lambda_body_binds_walrus_targets
